@@ -28,6 +28,22 @@ FORBIDDEN = re.compile(
 # standard-library axioms a proof may depend on (named in DESIGN.md section 8); empty = closed proofs only
 ALLOWED_AXIOMS = set()
 
+ASSUMPTIONS_COMMON = [
+    "the hand-written Gallina model is tied to /repo only by the behavioural correspondence on the generated inputs of this run (sampled, not exhaustive)",
+    "external crates (syn, quote, proc-macro2, scale-info, scale-value, rand, rand_chacha) behave as on this image; they are not modelled beyond the interface named in DESIGN.md section 8",
+    "identity / sort key of a syn::Path or syn::Attribute = its token string",
+]
+ASSUMPTIONS = {
+    "C01": ["the meaning rustc and parity-scale-codec's derive give to an emitted item is the shape semantics shape_rust of Model/Shape.v (not validated by compilation)"],
+    "C02": ["rustc acceptance is not checked; syn::parse2::<File> is run on every observed module"],
+    "C05": ["the harness interner (harness/src/reggen.rs) produces what scale-info's derive would produce for the program"],
+    "C06": ["std HashMap / HashSet iteration order is an arbitrary permutation and nothing else leaks; runs in fresh processes are not part of this check"],
+    "C12": ["the ChaCha8 word stream is an oracle supplied by the harness (rand_chacha); encode/decode round trips are executed with scale-value, not proved"],
+    "C14": ["the ChaCha8 word stream is an oracle supplied by the harness (rand_chacha); syn::parse2::<Expr> is run on every observed example"],
+    "C17": ["scale-info's PortableRegistry::retain is used as is for the restriction pairs"],
+    "C18": ["encoding equality with the variant payload relies on the unvalidated derive semantics (see C01)"],
+}
+
 # extra Coq targets a property needs besides Properties/<id>.vo and Corr/Run<id>.vo
 EXTRA_TARGETS = {}
 # properties sharing the type-generator case family use Corr/CheckTG.v
@@ -351,10 +367,7 @@ def main():
             "known_findings_reported": sorted(seen),
             "coqc_eval_wall_s": round(coqc_wall, 1),
         },
-        "assumptions": [
-            "rustc/syn/quote/proc-macro2/scale-info/scale-value behave as on this image (external crates are not modelled)",
-            "HashMap iteration order is an arbitrary permutation; ChaCha8 draws are reconstructed from the output",
-        ] + notes,
+        "assumptions": ASSUMPTIONS_COMMON + ASSUMPTIONS.get(prop, []) + notes,
         "wall_s": round(time.time() - t0, 1),
         "violations": len(violations),
     }
